@@ -45,6 +45,7 @@ var c13Wheres = []string{
 var c13Wraps = []string{
 	"select * where %s", "select key, upper(value) as u where %s", "select * where %s order by value desc",
 	"select key, int(value) as n where %s order by n, key desc limit 1, 3", "select * where %s limit 2", "select * where %s limit 4, 2",
+	"select key + '_x', value + key, key + value where %s",
 	"select count(1), sum(int(value)) where %s", "select value, count(1) as c where %s group by value",
 	"select value, count(1) as c where %s group by value order by c desc limit 1, 2", "select value, max(key) where %s group by value limit 1, 1",
 }
@@ -163,7 +164,17 @@ func (k c13) enumerate(c *rt.Ctx, q string, pairs []refstore.Pair, m drive.Mode)
 			return d
 		}
 	}
-	// (1) read-only-ness
+	// (1) read-only-ness: no mutating call, and nothing written into memory the storage handed out
+	if isSelect {
+		rec.Inc("selects_checked_for_memory_damage")
+		if dmg := st.ArenaDamage(); len(dmg) > 0 {
+			if len(dmg) > 6 {
+				dmg = dmg[:6]
+			}
+			c.Violation("select-modified-memory-owned-by-the-storage", rt.Shape(q), detail(rt.D{"damaged_buffers": dmg}, log, o))
+			return
+		}
+	}
 	if isSelect || o.PlanErr != nil {
 		for _, e := range log {
 			if e.Op.Mutating() {
